@@ -735,6 +735,10 @@ REPEATABLE = {
     "distinct_for_decl_if_last": ("", lambda i: f"void h{i}(int n{i}){{ for (int i = 0; i < 3; i++) if (i) n{i}++; }}", "\n", ""),
     "distinct_for_decl_block_last": ("", lambda i: f"void j{i}(int n{i}){{ {{ for (int i = 0, k{i} = 1; i < k{i}; i++) {{ n{i}++; }} }} }}", "\n", ""),
     "distinct_for_static_assert": ("", lambda i: f"void s{i}(int n{i}){{ for (_Static_assert(1, \"m\"); n{i}; ) if (n{i}) break; }}", "\n", ""),
+    # rejected on the pinned tree (implicit int AND a declaration list is C89
+    # only): measured all the same - a change that starts accepting it must
+    # not make it super-linear
+    "distinct_knr_implicit_int_list": ("", lambda i: f"ki{i}(a{i}) int a{i}; {{ return a{i}; }}", "\n", ""),
     "distinct_knr_enum_list": ("", lambda i: f"int ke{i}(e{i}) enum {{ KA{i}, KB{i} }} e{i}; {{ return e{i} == KB{i}; }}", "\n", ""),
     "distinct_enum_in_struct_in_fn": ("", lambda i: f"int es{i}(void){{ struct {{ enum {{ EA{i}, EB{i} }} m; }} v = {{ EB{i} }}; return sizeof(enum {{ EC{i} }}) + v.m; }}", "\n", ""),
     "for_decl_if_in_one_function": ("void f(int n){ ", lambda i: f"{{ for (int i{i} = 0; i{i} < 3; i{i}++) if (i{i}) n++; }}", " ", " }"),
